@@ -55,7 +55,7 @@ enum { FIT_NO = 0, FIT_YES = 1, FIT_SLAVE_TRUNC = 2, FIT_SHADOWED = 3, FIT_ZLIB_
 static const char * FindingKey(int f)
 {
    switch (f) {
-   case FIT_SLAVE_TRUNC:       return "finding|slave_gateway_buffer_truncated_at_default_packet_size";       // ProxyIOGateway's fake packet IOs keep the 1168-byte default
+   case FIT_SLAVE_TRUNC:       return "finding|slave_gateway_buffer_truncated_at_default_packet_size";       // (repaired in /repo; no Message is classified so any more: regress witness 30)
    case FIT_SHADOWED:          return "finding|max_incoming_size_drops_rest_of_packet";                      // oversize chunk -> break instead of skipping the chunk
    case FIT_ZLIB_SLAVE_MULTI:  return "finding|zlib_slave_dependent_stream|lost_with_several_sources";        // one inflater for all sources, dependent deflate streams
    case FIT_MINI_MISLABELLED:  return "finding|mini_zlib_held_packet_header_says_uncompressed";              // header patched in place, packet re-deflated after a held Write
@@ -309,12 +309,6 @@ static void Judge(const Scen & sc, const std::vector<Got> & got, bool identity)
 // Messages concerned by defects of the unchanged tree (see FindingKey) become optional for the identity oracle
 static void ClassifyKnownDefects(Scen & sc, int s)
 {
-   if (sc.slave) for (size_t i = 0; i < sc.sent[s].size(); i++) {
-      const uint32 raw = (uint32)sc.sent[s][i].size(), limit = MUSCLE_MAX_PAYLOAD_BYTES_PER_UDP_ETHERNET_PACKET;
-      const bool over = (sc.slave == 1) ? (SLAVE_HDR + raw > limit) : (SLAVE_HDR + 8 + raw + raw / 500 + 40 > limit);   // zlib slave: deflated size unknown, be generous
-      if (over && sc.fits[s][i] == FIT_YES) sc.fits[s][i] = FIT_SLAVE_TRUNC;
-   }
-   if (sc.slave == 2) { bool lost = false; for (size_t i = 0; i < sc.fits[s].size(); i++) { if (lost && sc.fits[s][i] == FIT_YES) sc.fits[s][i] = FIT_ZLIB_SLAVE_AFTER_LOSS; if (sc.fits[s][i] == FIT_SLAVE_TRUNC) lost = true; } }
    if (sc.mini && sc.zl) for (size_t i = 0; i < sc.pk[s].size(); i++) {
       const std::string & b = sc.pk[s][i].bytes; if (b.size() < 16) continue;
       const uint8 * p = (const uint8 *)b.data(); const uint32 lvl = DefaultEndianConverter::Import<uint32>(p + 8) >> 24, first = DefaultEndianConverter::Import<uint32>(p + 12);
@@ -609,6 +603,19 @@ static void Regress()
          if (got.size() != want) Fail("regress|sexid_or_misc_data", vh::fmt("receiver sexID=%d allowMisc=%d: %zu Messages delivered, %zu expected", v & 1 ? 77 : 78, (v >> 1) & 1, got.size(), want));
       }
       vh::distinct(9);
+   }
+   {  // repaired defect: with a slave gateway the reassembled buffer was handed to the slave through a fake packet IO of the default
+      // 1168-byte packet size, so every Message larger than that was silently lost.  MTU 200, Message of 2037 flattened bytes -> delivered once;
+      // also a Message of 20 x MTU through the mini tunnel's limit (1500-byte MTU, 8-byte slave header, exact fit)
+      for (int v = 0; v < 2; v++) {
+         Scen sc; sc.mini = (v == 1); sc.slave = 1; sc.mtu = sc.ctorMtu = v ? 1500 : 200; sc.ns = 1; sc.addr[0] = IPAddressAndPort(IPAddress((uint64)0x7f000001, 0), 4000); caseBad = false; caseFindings.clear();
+         vh::begin_case(30 + v); curScript = "regress: slave gateway, Message larger than the default packet size";
+         std::vector<MessageRef> m; m.push_back(MakeMsg(1, 40, 0, 1)); m.push_back(MakeMsg(2, v ? 1500 - 16 - 8 : 2037, 0, 2)); m.push_back(MakeMsg(3, 4000 * (1 - v) + 50, 0, 3)); m.push_back(MakeMsg(4, 12, 0, 4));
+         SendAll(sc, 0, m); curScen = sc.Describe();
+         std::vector<const Pkt *> seq; for (size_t i = 0; i < sc.pk[0].size(); i++) seq.push_back(&sc.pk[0][i]);
+         std::vector<Got> got; if (RunReceiver(sc, seq, got)) Judge(sc, got, true);
+         vh::distinct(31 + v);
+      }
    }
    {  // "If bytesWritten is set to zero, we just hold this buffer until our next call" (mini tunnel, zlib): a held packet whose deflation did not pay,
       // then a compressible Message joins the same packet
